@@ -507,6 +507,7 @@ func (c *checkCtx) plan() bool {
 			"(*SseBinChecksumService).Algorithm", "(*SzseBinChecksumService).Algorithm", "(*Crc32ChecksumService).Algorithm"}, nil)
 		c.msgTask("frameC05")
 		c.frameSafety()
+		c.registryInit()
 	case "C06":
 		c.codecTask(c.writerNames(), []string{"safe", "ok"})
 		c.msgTask("ok", "safe", "repeat")
@@ -545,6 +546,7 @@ func (c *checkCtx) plan() bool {
 	case "C14":
 		c.codecTask([]string{"(*Crc16ChecksumService).Calc", "(*Crc32ChecksumService).Calc", "(*SseBinChecksumService).Calc", "(*SzseBinChecksumService).Calc",
 			"(*Crc16ChecksumService).Algorithm", "(*Crc32ChecksumService).Algorithm", "(*SseBinChecksumService).Algorithm", "(*SzseBinChecksumService).Algorithm"}, nil)
+		c.registryInit()
 		c.rawLemma("crc16_rocksoft.smt2", "one byte step of the reflected CRC-16 loop equals, after bit reversal, one byte step of the Rocksoft MSB-first model (poly 0x8005, refin, refout), for all register values and bytes")
 		c.rawLemma("crc16_check.smt2", "the reflected algorithm yields the published check value 0x4B37 on \"123456789\"")
 		c.rawLemma("crcbit_bridge.smt2", "the integer formulation (mod 2, div 2, xor16) of one bit step is the bit-vector step")
@@ -565,6 +567,7 @@ func (c *checkCtx) plan() bool {
 		c.msgTask("toolong", "ok", "rt")
 	case "C19":
 		c.registryTask()
+		c.registryInit()
 	case "C20":
 		c.framesTask("C20")
 	default:
